@@ -19,6 +19,7 @@ import (
 	"sort"
 	"strconv"
 	"strings"
+	"syscall"
 	"time"
 
 	"verif/harness/conc"
@@ -196,6 +197,9 @@ func cmdShard(args []string) int {
 	}
 	b := &sim.Batch{World: world, Opt: sim.Options{Property: *p, Tier: *tier, Known: loadKnown(), Seed: *seed},
 		Tag: tag, Runs: *runs, Budget: time.Duration(*budget * float64(time.Second)), Workers: *workers, First: *first, Stride: *stride}
+	if *workers == 1 {
+		go shardWatchdog(*p, *wname)
+	}
 	agg := b.Run()
 	agg.Seal()
 	if *outFile != "" {
@@ -210,6 +214,44 @@ func cmdShard(args []string) int {
 	}
 	json.NewEncoder(os.Stdout).Encode(agg)
 	return 0
+}
+
+// shardWatchdog ends a single-worker child process whose current run has not
+// returned for two minutes while the process kept computing for at least one
+// of them (so it is spinning, not starved): a call of the code under test that
+// never returns, or the harness itself. It says which run and where, and exits
+// 3; the parent turns that into exit 2 (harness trouble, never a VIOLATION)
+// unless other processes of the batch recorded violations. Ordinary runs take
+// milliseconds, the longest bounded step (a linearizability check) 20 s.
+func shardWatchdog(p, wname string) {
+	cpu := func() float64 {
+		var ru syscall.Rusage
+		if syscall.Getrusage(syscall.RUSAGE_SELF, &ru) != nil {
+			return 0
+		}
+		return float64(ru.Utime.Sec+ru.Stime.Sec) + float64(ru.Utime.Usec+ru.Stime.Usec)/1e6
+	}
+	lastDone, _, _ := sim.Progress()
+	since, cpuAt := time.Now(), cpu()
+	for {
+		time.Sleep(2 * time.Second)
+		d, idx, sub := sim.Progress()
+		if d != lastDone {
+			lastDone, since, cpuAt = d, time.Now(), cpu()
+			continue
+		}
+		if time.Since(since) > 120*time.Second && cpu()-cpuAt > 60 {
+			buf := make([]byte, 1<<20)
+			n := runtime.Stack(buf, true)
+			st := string(buf[:n])
+			if len(st) > 6000 {
+				st = st[:6000] + "\n..."
+			}
+			fmt.Fprintf(os.Stderr, "HARNESS-FAULT: child process of %s%s: run %d (sub-seed %d) has not returned for %.0f s (%.0f s on the processor): a call of the code under test that does not return, or the harness spinning. Goroutines:\n%s\n",
+				p, wname, idx, sub, time.Since(since).Seconds(), cpu()-cpuAt, st)
+			os.Exit(3)
+		}
+	}
 }
 
 func runSharded(p string, tier string, seed uint64, runs int64, budget float64, procs int) (*sim.Agg, error) {
